@@ -220,6 +220,8 @@ def model_psolve(ctx, node, kw, names):
     ans = ctx.driver.ask({"op": "phsolve", "tree": ptree_json(node),
                           "kw": [[k, [gen.frac_str(Fraction(v)), "0/1"]] for k, v in kw.items()]})
     dfl = {k: float(Fraction(v[0])) for k, v in ans.get("defaults", [])}
+    if "wftree" in ans:
+        ctx.tag("hyp:WFTree" if ans["wftree"] else "hyp:outside:WFTree")
     if "T" not in ans:
         return ans.get("err", "?"), None, dfl
     if sorted(ans["pins"]) != sorted(names):
